@@ -270,6 +270,14 @@ def run(rep, progs, tier):
                          "cannot be validated statically (Duration::MAX.as_secs_f64() rounds up to 2^64) — "
                          "use try_from_secs_f64" % s.kind)
                 continue
+            cv = panics.constant_arithmetic(prog, s)
+            if cv is not None:
+                rep.ok("C12.inventory", inst, detail={"where": s.where, "discharged": "arithmetic on compile-time constants, result %d fits" % cv})
+                continue
+            cap = panics.constant_capacity(prog, s)
+            if cap is not None:
+                rep.ok("C12.inventory", inst, detail={"where": s.where, "discharged": "capacity is the compile-time constant %d" % cap})
+                continue
             rest.append(s)
         am = panics.AuditMatcher(AUDITED, rest)
         for s in rest:
